@@ -324,8 +324,27 @@ def t_named_multibody(rng):
   return prog
 
 
+def t_implication(rng):
+  """~(A, ~B) in the shapes `A => B` is sugar for: conjunctive consequences, conjunctive antecedents, under a
+  negation and inside an aggregating expression."""
+  prog = Program()
+  fact_pred(prog, rng, 'T', 1, rng.randint(3, 5), (1, 2, 3, 4))
+  fact_pred(prog, rng, 'U', 1, rng.randint(2, 4), (1, 2, 3, 4))
+  fact_pred(prog, rng, 'Vv', 1, rng.randint(1, 3), (1, 2, 3, 4))
+  fact_pred(prog, rng, 'W', 1, rng.randint(1, 3), (1, 2, 3, 4))
+  x = V('x')
+  imp = lambda a, b: {'not': AND(a, {'not': b})}
+  derived(prog, 'Q', ['col0'], ['int'], [rule('Q', [['col0', x]], AND(atom('T', x), imp(atom('U', x), AND(atom('Vv', x), atom('W', x)))))])
+  derived(prog, 'Q2', ['col0'], ['int'], [rule('Q2', [['col0', x]], AND(atom('T', x), {'not': AND(atom('U', x), {'test': OP('>', x, L(1))}, {'not': atom('Vv', x)})}))])
+  derived(prog, 'N', ['col0'], ['int'], [rule('N', [['col0', x]], AND(atom('T', x), {'not': imp(atom('U', x), AND(atom('Vv', x), atom('W', x)))}))])
+  derived(prog, 'S', ['col0'], ['int'],
+          [rule('S', [['col0', V('s')]], {'eq': [V('s'), agg('Sum', x, AND(atom('T', x), imp(atom('U', x), AND(atom('Vv', x), atom('W', x)))))]})])
+  prog.features.add('tpl:implication')
+  return prog
+
+
 TEMPLATES = [t_injectible_self_application, t_sibling_combines, t_division, t_outer_only_value, t_multivalued_calls, t_nested_disjunction,
-             t_no_table_rule, t_record_if, t_unary_minus, t_pure_distinct, t_mixed_head, t_argmin_k, t_named_multibody]
+             t_no_table_rule, t_record_if, t_unary_minus, t_pure_distinct, t_mixed_head, t_argmin_k, t_named_multibody, t_implication]
 
 
 def build(rng, mask, kwargs):
